@@ -71,9 +71,63 @@ def main():
                         path = "fallback"
                 s = fast_json.dumps(v)
                 r = {"ok": True, "path": path, "text": [ord(c) for c in s], "isstr": isinstance(s, str)}
+                # the other spellings of "compact" callers use: an explicit indent=None (the fallback
+                # model base does), and dump() to a stream
+                try:
+                    import io
+                    alt = fast_json.dumps(v, indent=None)
+                    buf = io.StringIO()
+                    fast_json.dump(v, buf)
+                    alt2 = buf.getvalue()
+                    r["altSame"] = bool(all("\n" not in a and "\r" not in a and tag(fast_json.loads(a)) == tag(v) for a in (alt, alt2)))
+                except Exception:
+                    r["altSame"] = False
             except Exception as e:
                 r = {"ok": False, "path": "raised", "exc": type(e).__name__, "text": [], "isstr": False}
             out["results"].append(r)
+    elif req["op"] == "deep":
+        # chains nested deeper than any bounded grammar: [[[...[leaf]...]]] and {"k":{"k":...leaf}},
+        # built, encoded, decoded and compared without recursion
+        sys.setrecursionlimit(20000)
+        for depth in req["depths"]:
+            for shape in ("list", "dict", "mixed"):
+                v = leaf = "leaf \u00e9"
+                for i in range(depth):
+                    v = [v] if shape == "list" or (shape == "mixed" and i % 2) else {"k": v}
+                r = {"depth": depth, "shape": shape, "encoded": False, "text": "", "decodedOk": {}, "path": "stdlib"}
+                if fast_json.HAS_ORJSON:
+                    try:
+                        fast_json._orjson.dumps(v)
+                        r["path"] = "orjson"
+                    except Exception:
+                        r["path"] = "fallback"
+                try:
+                    r["text"] = fast_json.dumps(v)
+                    r["encoded"] = True
+                except Exception as e:
+                    r["exc"] = type(e).__name__
+                out["results"].append(r)
+    elif req["op"] == "deepdecode":
+        sys.setrecursionlimit(20000)
+        for item in req["items"]:
+            ok = False
+            try:
+                v = fast_json.loads(item["text"])
+                d = 0
+                while isinstance(v, (list, dict)):
+                    if isinstance(v, list):
+                        if len(v) != 1:
+                            break
+                        v = v[0]
+                    else:
+                        if list(v) != ["k"]:
+                            break
+                        v = v["k"]
+                    d += 1
+                ok = d == item["depth"] and v == "leaf \u00e9"
+            except Exception:
+                ok = False
+            out["results"].append({"ok": bool(ok)})
     elif req["op"] == "decode":
         for cps, asbytes in req["texts"]:
             s = "".join(chr(c) for c in cps)
